@@ -337,6 +337,8 @@ def registry(ctx, prog, cipher):
         new = ci.methods.get('__new__')
         if new is None:
             continue
+        from .. import inline
+        new = inline.inlined(prog, new)
         rets = [r for r in ast.walk(new.node) if isinstance(r, ast.Return) and isinstance(r.value, ast.Call)]
         if len(rets) != 1:
             ctx.undecided('C07-D1', f'{ci.key}::__new__', '__new__ does not consist of one factory call', new.where())
@@ -555,7 +557,7 @@ def d2(ctx, prog, regs):
     st = [s for s in ast.walk(init.node) if isinstance(s, ast.Assign) and norm(s.targets[0]) == 'self.expected_key_function']
     ctx.check(len(st) == 1 and norm(st[0].value) == 'expected_key_function', 'C07-D2', f'{init.key}::expected_key_function', 'self.expected_key_function is not the argument', 'self.expected_key_function = expected_key_function', init.where())
     ek = asf.methods.get('compute_expected_key')
-    rets = [r for r in ast.walk(ek.node) if isinstance(r, ast.Return) and r.value is not None]
+    rets = [r for r in ast.walk(ek.node) if isinstance(r, ast.Return) and r.value is not None and not (isinstance(r.value, ast.Constant) and r.value.value is None)]
     ctx.check(len(rets) == 1 and isinstance(rets[0].value, ast.Call) and norm(rets[0].value.func) == 'self.expected_key_function', 'C07-D2', f'{ek.key}::result',
               'compute_expected_key does not return the expected-key function\'s result', 'returns expected_key_function(**selected metadata)', ek.where())
     binds = [s for s in ast.walk(ek.node) if isinstance(s, ast.Assign) and isinstance(s.targets[0], ast.Subscript) and isinstance(s.value, ast.Subscript)]
@@ -571,36 +573,106 @@ def d2(ctx, prog, regs):
     binds = [s for s in ast.walk(call.node) if isinstance(s, ast.Assign) and norm(s.targets[0]).startswith('self._base_kwargs[') and isinstance(s.value, ast.Subscript) and norm(s.value.value) == kwp]
     ctx.check(len(binds) == 1 and norm(binds[0].targets[0].slice) == norm(binds[0].value.slice), 'C07-D2', f'{call.key}::binding',
               'an argument of the wrapped function does not receive the metadata of the same name', 'argument `name` <- metadata[`name`]', call.where())
-    vstores = [s for s in ast.walk(call.node) if isinstance(s, ast.Assign) and norm(s.targets[0]) == 'values']
-    sel = [s for s in vstores if 'self.words' in norm(s.value)]
-    other = [s for s in vstores if s not in sel and not (calls and s.value is calls[0])]
-    rets = [r for r in ast.walk(call.node) if isinstance(r, ast.Return)]
-    ctx.check(not other and len(rets) == 1 and norm(rets[0].value) == 'values', 'C07-D2', f'{call.key}::result', f'the returned values are modified besides the words selection: `{norm(other[0])[:70] if other else norm(rets[0].value) if rets else ""}`',
-              'returns the function output with only the words selection applied', call.where())
-    if len(sel) == 1:
-        v = norm(sel[0].value).replace(' ', '')
-        forms = ('values.swapaxes(0,-1)[self.words].swapaxes(0,-1)', 'values.swapaxes(-1,0)[self.words].swapaxes(-1,0)', 'values[...,self.words]',
-                 'values.swapaxes(0,-1)[self.words].swapaxes(-1,0)', 'values.swapaxes(-1,0)[self.words].swapaxes(0,-1)')
-        if v in forms:
-            ctx.ok('C07-D2', f'{call.key}::words axis', f'`{norm(sel[0].value)}`: words select on the last axis', call.where(sel[0]))
-        else:
-            # decide from the swap arguments when the shape is the swap/index/swap idiom
-            e = sel[0].value
-            sw2 = e if isinstance(e, ast.Call) and isinstance(e.func, ast.Attribute) and e.func.attr == 'swapaxes' else None
-            idx = sw2.func.value if sw2 is not None and isinstance(sw2.func.value, ast.Subscript) else None
-            sw1 = idx.value if idx is not None and isinstance(idx.value, ast.Call) and isinstance(idx.value.func, ast.Attribute) and idx.value.func.attr == 'swapaxes' else None
-            if sw1 is not None and norm(sw1.func.value) == 'values' and norm(idx.slice) == 'self.words':
-                a1 = sorted(const_value(x) for x in sw1.args if isinstance(const_value(x), int))
-                a2 = sorted(const_value(x) for x in sw2.args if isinstance(const_value(x), int))
-                if len(a1) == 2 and len(a2) == 2:
-                    ctx.check(a1 == [-1, 0] and a2 == [-1, 0], 'C07-D2', f'{call.key}::words axis', f'`{norm(e)}`: the words selection is applied on axis {[x for x in a1 if x != 0] or a1} and '
-                              f'swapped back with {a2}: not the last (words) axis', 'words select on the last axis', call.where(sel[0]))
-                else:
-                    ctx.undecided('C07-D2', f'{call.key}::words axis', 'swap arguments not literal', call.where(sel[0]))
-            else:
-                ctx.undecided('C07-D2', f'{call.key}::words axis', f'words selection `{norm(e)[:60]}` not recognised', call.where(sel[0]))
+    # what is returned, as one expression over the function output (locals expanded along the words-selection path)
+    env = {}
+
+    class Exp(ast.NodeTransformer):
+        def visit_Name(self, n):
+            if isinstance(n.ctx, ast.Load) and n.id in env:
+                return env[n.id]
+            return n
+
+    def walk(stmts):
+        import copy
+        for st in stmts:
+            if isinstance(st, ast.Assign) and len(st.targets) == 1 and isinstance(st.targets[0], ast.Name):
+                env[st.targets[0].id] = Exp().visit(copy.deepcopy(st.value))
+            elif isinstance(st, ast.If):
+                if not (st.body and isinstance(st.body[-1], ast.Raise)):
+                    walk(st.body)
+            elif isinstance(st, ast.Try):
+                walk(st.body)
+            elif isinstance(st, ast.Return) and st.value is not None:
+                return Exp().visit(copy.deepcopy(st.value))
+        return None
+    ret = walk([s_ for s_ in call.node.body if not isinstance(s_, ast.For)])
+    CALL = 'self._function(**self._base_kwargs)'
+    key_w = f'{call.key}::words axis'
+    if ret is None:
+        ctx.undecided('C07-D2', f'{call.key}::result', 'returned expression not derivable', call.where())
     else:
-        ctx.undecided('C07-D2', f'{call.key}::words axis', f'{len(sel)} words selections found', call.where())
+        e = ret
+        # peel: X.swapaxes(a, b)[self.words].swapaxes(c, d)   or   X[..., self.words]
+        def swap_of(x):
+            if isinstance(x, ast.Call) and isinstance(x.func, ast.Attribute) and x.func.attr == 'swapaxes' and len(x.args) == 2 and not x.keywords:
+                a_, b_ = const_value(x.args[0]), const_value(x.args[1])
+                if isinstance(a_, int) and isinstance(b_, int):
+                    return x.func.value, sorted((a_, b_))
+            if isinstance(x, ast.Call) and last(norm(x.func)) == 'swapaxes' and len(x.args) == 3 and isinstance(x.func, ast.Attribute) and norm(x.func.value) in ('_np', 'np', 'numpy'):
+                a_, b_ = const_value(x.args[1]), const_value(x.args[2])
+                if isinstance(a_, int) and isinstance(b_, int):
+                    return x.args[0], sorted((a_, b_))
+            return None
+        def index_kind(x, depth=0):
+            """'same': the stored words selection itself (or an order-preserving copy); 'derived': a value computed from it with no
+            element-wise justification; 'unknown'"""
+            if norm(x) == 'self.words':
+                return 'same', None
+            if isinstance(x, ast.Call) and last(norm(x.func)) in ('asarray', 'array', 'copy', 'list', 'tuple') and len(x.args) == 1 and norm(x.args[0]) == 'self.words':
+                return 'same', None
+            if isinstance(x, ast.Call) and isinstance(x.func, ast.Attribute) and norm(x.func.value) == 'self' and depth < 2:
+                h = prog.resolve_method(sf, x.func.attr)
+                if h is None:
+                    return 'unknown', None
+                aliases = {'self.words'}
+                for a_ in ast.walk(h.node):
+                    if isinstance(a_, ast.Assign) and len(a_.targets) == 1 and isinstance(a_.targets[0], ast.Name) and norm(a_.value) == 'self.words':
+                        aliases.add(a_.targets[0].id)
+                pm_ = astutil.parents(h.node)
+                worst = ('same', None)
+                for r_ in ast.walk(h.node):
+                    if isinstance(r_, ast.Return) and r_.value is not None:
+                        if norm(r_.value) in aliases:
+                            continue
+                        elementwise = any(any(isinstance(c_, ast.Call) and last(norm(c_.func)) in ('all', 'array_equal', 'diff') for c_ in ast.walk(t_))
+                                          for t_, pol_ in astutil.guards(r_, pm_, h.node))
+                        worst = ('unknown', r_) if elementwise else ('derived', r_)
+                        if worst[0] == 'derived':
+                            return ('derived', (h, r_))
+                return worst if worst[0] == 'same' else ('unknown', None)
+            return 'unknown', None
+        verdict = None
+        modified = None
+        o = swap_of(e)
+        if o is not None and isinstance(o[0], ast.Subscript):
+            i_ = swap_of(o[0].value)
+            kind_, info_ = index_kind(o[0].slice)
+            if i_ is not None and kind_ == 'derived':
+                h_, r_ = info_
+                ctx.fail('C07-D2', f'{call.key}::words index', f'the selection applied is `{norm(o[0].slice)[:50]}`, which replaces the stored words by `{norm(r_.value)[:50]}` computed from them '
+                         f'(no element-wise justification): output position j is no longer word words[j]', h_.where(r_))
+                verdict = (True, 'n/a')
+            elif i_ is not None and kind_ == 'same':
+                if norm(i_[0]) == CALL:
+                    verdict = (o[1] == [-1, 0] and i_[1] == [-1, 0], f'selection applied after swapaxes{tuple(i_[1])}, swapped back with swapaxes{tuple(o[1])}')
+                elif CALL in norm(i_[0]):
+                    modified = i_[0]
+        elif isinstance(e, ast.Subscript) and isinstance(e.slice, ast.Tuple) and len(e.slice.elts) == 2 \
+                and isinstance(e.slice.elts[0], ast.Constant) and e.slice.elts[0].value is Ellipsis and index_kind(e.slice.elts[1])[0] == 'same':
+            if norm(e.value) == CALL:
+                verdict = (True, 'values[..., self.words]')
+            elif CALL in norm(e.value):
+                modified = e.value
+        if modified is not None:
+            ctx.fail('C07-D2', f'{call.key}::result', f'the words selection is applied to `{norm(modified)[:70]}`, not to the function output itself: the returned values are modified besides the words selection', call.where())
+        elif verdict is None:
+            if CALL not in norm(e):
+                ctx.fail('C07-D2', f'{call.key}::result', f'what is returned (`{norm(e)[:80]}`) is not derived from the wrapped function\'s output', call.where())
+            else:
+                ctx.undecided('C07-D2', key_w, f'returned expression `{norm(e)[:90]}` is not the words selection on the last axis of the function output in a recognised form', call.where())
+        else:
+            ctx.ok('C07-D2', f'{call.key}::result', 'returns the function output with only the words selection applied', call.where())
+            ctx.check(verdict[0], 'C07-D2', key_w, f'{verdict[1]}: the words selection is not applied on the last (words) axis', f'{verdict[1]}: words select on the last axis', call.where())
     sw = sf.methods.get('_set_words')
     st = [s for s in ast.walk(sw.node) if isinstance(s, ast.Assign) and norm(s.targets[0]) == 'self.words']
     ok = len(st) == 1 and norm(st[0].value).replace(' ', '') in ('wordsifwordsisnotNoneelse...', '...ifwordsisNoneelsewords')
